@@ -36,6 +36,8 @@ KINDS = ['str', 'bytes', 'str_nonascii', 'empty_str', 'empty_bytes', 'none', 'li
          'resp_returned', 'err_returned', 'resp_raised', 'err_raised', 'resp_gen_body', 'gen_yields_resp', 'gen_yields_err', 'nested3',
          'exception', 'gen_exception_first', 'unsupported_int', 'unsupported_list', 'abort', 'gen_raises_resp', 'dict_false', 'iter_of_lists',
          'iterable_sep_iter', 'iterable_gen_iter', 'iterable_sep_iter_bytes',
+         # falsy results that are no containers (`return flag and 'text'`, `return len(items) and ...`): an empty answer
+         'false', 'zero', 'float_zero',
          # a real file of the file system, opened by the handler, its first line already read (a header line, magic bytes)
          'realfile_positioned',
          # exactly one chunk and nothing after it, not even an empty item
@@ -176,7 +178,7 @@ def make_world(hooks, errh):
         resp = app.response
         plain = {'str', 'bytes', 'str_nonascii', 'empty_str', 'empty_bytes', 'none', 'list_str', 'list_bytes', 'list_leading_empty', 'list_empty', 'tuple_str',
                  'gen_str', 'gen_bytes', 'gen_leading_empty', 'gen_all_empty', 'iter_custom', 'iter_custom_bytes', 'filelike', 'filelike_noclose', 'dict_false', 'iter_of_lists',
-                 'iter_single', 'iter_single_bytes', 'iterable_single', 'gen_single', 'realfile_positioned',
+                 'iter_single', 'iter_single_bytes', 'iterable_single', 'gen_single', 'realfile_positioned', 'false', 'zero', 'float_zero',
                  'iterable_sep_iter', 'iterable_gen_iter', 'iterable_sep_iter_bytes'}
         if kind in plain:
             resp.status = S
@@ -236,6 +238,8 @@ def make_world(hooks, errh):
             return FileLike(b'file-data-' * 10, st)
         if kind == 'filelike_noclose':
             return FileLike(b'file-data-' * 10, st, with_close=False)
+        if kind in ('false', 'zero', 'float_zero'):
+            return {'false': False, 'zero': 0, 'float_zero': 0.0}[kind]
         if kind == 'realfile_positioned':
             f = open(_real_file(), 'rb')
             f.readline()
@@ -345,7 +349,7 @@ PLAIN_BODY = {
     'list_str': 'abcé'.encode(), 'list_bytes': b'abc', 'list_leading_empty': b'xy', 'list_empty': b'', 'tuple_str': b't1t2',
     'gen_str': 'g1g2é'.encode(), 'gen_bytes': b'g1g2', 'gen_leading_empty': b'xy', 'gen_all_empty': b'', 'iter_custom': b'c1c2',
     'iter_custom_bytes': b'c1c2', 'iterable_sep_iter': b's1s2', 'iterable_gen_iter': b's1s2', 'iterable_sep_iter_bytes': b's1s2', 'filelike': b'file-data-' * 10, 'filelike_noclose': b'file-data-' * 10, 'dict_false': b'',
-    'realfile_positioned': b'file-data-' * 10,
+    'realfile_positioned': b'file-data-' * 10, 'false': b'', 'zero': b'', 'float_zero': b'',
     'iter_single': b'only', 'iter_single_bytes': b'only', 'iterable_single': b'only', 'gen_single': b'only',
 }
 
